@@ -176,7 +176,30 @@ fn payload(r: &mut Rng, class: u64, big: usize) -> (Vec<u8>, &'static str) {
         3 => { let n = r.below(big as u64) as usize + 1000; (vec![r.next() as u8; n], "repetitive") }
         4 => { let w = [&b"lorem "[..], b"ipsum ", b"dolor ", b"sit ", b"amet ", b"\n"]; let n = r.below(3000) as usize; let mut v = vec![]; for _ in 0..n { let p: &[u8] = *r.pick(&w[..]); v.extend_from_slice(p); } (v, "text") }
         5 => { let n = r.below(big as u64 / 4) as usize + 5000; let pn = r.below(40) as usize + 2; let pat = r.bytes(pn); ((0..n).map(|i| pat[i % pat.len()]).collect(), "periodic") }
-        _ => { let n = r.below(70_000) as usize + 60_000; (r.bytes(n), "incompressible_64k") }
+        6 => { let n = r.below(70_000) as usize + 60_000; (r.bytes(n), "incompressible_64k") }
+        _ => {
+            // a payload that itself looks like compressed data: the output of one of the compressors, or a stream
+            // header followed by anything (a transform that guesses "already compressed" from the bytes is wrong)
+            match r.below(4) {
+                0 | 1 => {
+                    let inner_n = r.below(600) as usize;
+                    let inner = r.bytes(inner_n);
+                    let a = *r.pick(&["gzip:bal", "zlib:bal", "zlib:fast", "zlib:best", "zstd:bal", "lz4:-", "brg:bal"]);
+                    (compressor(a).compress(Bytes::from(inner)).map(|b| b.to_vec()).unwrap_or_default(), "looks_compressed")
+                }
+                2 => {
+                    let heads: [&[u8]; 9] = [&[0x1f, 0x8b, 0x08], &[0x78, 0x9c], &[0x78, 0x01], &[0x78, 0xda], &[0x78, 0x5e], &[0x28, 0xb5, 0x2f, 0xfd], &[0x04, 0x22, 0x4d, 0x18], &[0x08, 0x1d], &[0x58, 0x85]];
+                    let mut v = r.pick(&heads[..]).to_vec();
+                    let n = r.below(200) as usize;
+                    v.extend(r.bytes(n));
+                    (v, "looks_compressed")
+                }
+                _ => {
+                    let texts: [&[u8]; 4] = [b"x^2 + y^2 = z^2", b"x\x9c", b"xxxxxxxxxxxxxxxxxxxxxxxxxxxxxxxx^", b"(\xb5/\xfd"];
+                    (r.pick(&texts[..]).to_vec(), "looks_compressed")
+                }
+            }
+        }
     }
 }
 
@@ -255,8 +278,8 @@ pub fn run(cfg: &Cfg) {
     let big = match cfg.tier { Tier::Quick => 120_000, Tier::Thorough => 1 << 20 };
     let all = algos();
     for a in &all {
-        for class in 0..7 {
-            let reps = cfg.n(1, 6);
+        for class in 0..8 {
+            let reps = if class == 7 { cfg.n(4, 24) } else { cfg.n(1, 6) };
             for _ in 0..reps {
                 // the slowest settings (brotli 10/11, zstd 19+) get the smaller payloads in the quick tier
                 let slow = a.ends_with(":10") || a.ends_with(":11") || a.ends_with(":best") && a.starts_with("br") || a.ends_with(":19") || a.ends_with(":22");
@@ -278,8 +301,9 @@ pub fn run(cfg: &Cfg) {
     for a in ["gzip:-", "zlib:-", "zstd:-", "lz4:-", "brg:-"] {
         for _ in 0..cfg.n(250, 12_000) {
             let cl = r.below(5); let (p, _) = payload(&mut r, cl, 3000);
-            let mut z = compressor(&a.replace(":-", if a.starts_with("lz4") { ":-" } else { ":bal" })).compress(Bytes::from(p)).unwrap().to_vec();
-            match r.below(5) {
+            let mut z = compressor(&a.replace(":-", if a.starts_with("lz4") { ":-" } else { ":bal" })).compress(Bytes::from(p)).map(|b| b.to_vec()).unwrap_or_default();
+            // (a compressor under test may return anything, even nothing: never index blindly)
+            match if z.is_empty() { 2 } else { r.below(5) } {
                 0 => { let k = r.below(z.len() as u64 + 1) as usize; z.truncate(k); }
                 1 => { let k = r.below(z.len() as u64) as usize; z[k] ^= 1 << r.below(8); }
                 2 => { let n = r.below(64) as usize; z = r.bytes(n); }
